@@ -91,6 +91,36 @@ Proof.
 Qed.
 Print Assumptions C42_membership_change_rebuilds.
 
+(* ---- the same refresh on a LIVE control connection: removing a host makes ControlConnection.on_remove run a nested, forced
+   refresh inside the removal loop (refresh_live; recursion budget live_fuel is proved sufficient: no EOutOfFuel).
+   The hosts are the same as without nesting, and however many hosts vanish at once each is announced removed exactly once *)
+Theorem C42_live_exact : forall c f st sn, Inv c st ->
+  NoDup (keys (st_hosts (fst (refresh_live (live_fuel c st sn) c f st sn)))) /\
+  forall e, In e (keys (st_hosts (fst (refresh_live (live_fuel c st sn) c f st sn)))) <-> e = control c \/ row_for c (sn_peers sn) e.
+Proof.
+  intros c f st sn [Hn Hc]. rewrite (live_hosts c f st sn Hn). split; [apply after_NoDup; exact Hn|apply exact_hosts; exact Hc].
+Qed.
+Print Assumptions C42_live_exact.
+
+Theorem C42_live_removed_once : forall c f st sn, Inv c st ->
+  let r := refresh_live (live_fuel c st sn) c f st sn in
+  policy_removes (snd r) = listener_removes (snd r) /\ NoDup (listener_removes (snd r)) /\
+  (forall e, In e (listener_removes (snd r)) <-> In e (keys (st_hosts st)) /\ ~ In e (keys (st_hosts (fst r)))) /\
+  nofuel (snd r).
+Proof. intros c f st sn [Hn _]. apply live_removed_once. exact Hn. Qed.
+Print Assumptions C42_live_removed_once.
+
+(* non-vacuity: three hosts vanish in one refresh on a live control connection: 3 removals, each once, 4 rebuilds (3 nested) *)
+Example C42_nonvacuous_live :
+  let st := Build_state [((100, 9042), Hs (Some 1) (Some 1) (Some 100)); ((1, 9042), Hs (Some 1) (Some 1) (Some 1));
+                         ((2, 9042), Hs (Some 1) (Some 1) (Some 2)); ((3, 9042), Hs (Some 1) (Some 1) (Some 3))] true (Some []) in
+  let sn := Build_snapshot (Some (Lr (Some 1) (Some 1) (Some 100) true (Some [1000]))) [] in
+  let r := refresh_live (live_fuel (Build_config (100, 9042) true 9042) st sn) (Build_config (100, 9042) true 9042) false st sn in
+  listener_removes (snd r) = [(1, 9042); (2, 9042); (3, 9042)] /\
+  length (filter (fun x => match x with ERebuild _ => true | _ => false end) (snd r)) = 4%nat /\
+  keys (st_hosts (fst r)) = [(100, 9042)].
+Proof. vm_compute. repeat split. Qed.
+
 (* FULL statement of the token clause: after a refresh whose system.local names a partitioner, the token map is the one the
    snapshot describes ("rebuilt whenever membership or tokens changed").  The code never compares tokens: refuted. *)
 Definition C42_tokens_mirror_full_statement : Prop := forall c f st sn, Inv c st -> lr_part (local_part c st sn) = true ->
